@@ -1123,7 +1123,8 @@ func ZZ_C13_Guards() {
 		tf.Tasks = merged
 	}
 	zzTerminal = terminal
-	zzPromptEOF = answer == len(zzAnswers)
+	zzPromptEOF = answer == len(zzAnswers) // the input ends at the prompt (Ctrl-D, an exhausted pipe): nothing typed is a "no"
+	zzPromptLine = ""
 	if !zzPromptEOF {
 		zzPromptLine = zzAnswers[answer]
 	}
@@ -1147,7 +1148,7 @@ func ZZ_C13_Guards() {
 		}
 		zz.Assert(!started, "failed-guard-runs-no-command-of-the-task")
 		zz.Assert(err != nil, "failed-guard-fails-the-invocation")
-		if err != nil && position != 2 && wantCode > 0 && !(guard == 5 && zzPromptEOF) {
+		if err != nil && position != 2 && wantCode > 0 {
 			te, ok := err.(errors.TaskError)
 			zz.Assert(ok && te.Code() == wantCode, fmt.Sprintf("failed-guard-gives-its-documented-class/%d", wantCode))
 		}
